@@ -90,7 +90,7 @@ def case_record(c):
         for k in c['override']:
             hd[k] = BOGUS[k]
     wd = engine.workdir()
-    stem = os.path.join(wd, 'c04_%s' % engine.sha(c))
+    stem = os.path.join(wd, ('c04_%s' if not c.get('glob_stem') else 'c04_run[1]_%s') % engine.sha(c))      # (sub-box) a stem with glob metacharacters
     for fn in guppi.list_files(stem):
         os.remove(fn)
     nb, bpf = c['num_blocks'], c['bpf']
@@ -524,6 +524,9 @@ def run(ctx):
                     for off in ((0, 1, 2, 3, 4, 5, 6, 7, 8) if T else (0, 4)):
                         cases.append(dict(box='A', n_user=n_user, kind_off=off, directio=dio, template=template,
                                           source=source, num_blocks=2, bpf=2, bits=8, perms=False))
+        if n_user in (0, 7):
+            cases.append(dict(box='A', n_user=n_user, kind_off=0, directio='1', template=False, source='ant', num_blocks=3, bpf=2,
+                              bits=8, perms=False, glob_stem=True))
         if not T:
             # DIRECTIO zero given as a string card ('0'), as it comes back from a header that was read from a file
             cases.append(dict(box='A', n_user=n_user, kind_off=0, directio='s0', template=False, source='ant', num_blocks=2, bpf=2,
